@@ -113,8 +113,6 @@ Definition check (c : case) : bool :=
   | CDirect _ => true
   end.
 
-Definition buf_valid (buf : Z) : bool := (0 <=? buf) && (buf <? 2 ^ 32).
-
 Definition oracle (c : case) : bool :=
   match c with
   | CB16 x e d y dy => is_ok_eq d x && not_panic dy
@@ -138,14 +136,14 @@ Definition oracle (c : case) : bool :=
   | CSnappy x e d => is_ok_eq d x
   | CLz4 dflt prepend prepended buf x e e_other d =>
       if dflt then is_ok_eq d x
-      else if Bool.eqb prepend prepended
-              && (prepended || (buf_valid buf && (Z.of_nat (length x) <=? buf)))
+      else if Bool.eqb prepend prepended && buf_valid buf
+              && (prepended || (Z.of_nat (length x) <=? buf))
       then is_ok_eq d x
       else not_panic e && not_panic d
   | CLz4Frame buf x frame d =>
       if buf_valid buf then is_ok_eq d x else not_panic d
   | CCharset repr label x e d =>
-      if repr then is_ok_eq d x else (if valid_utf8 x then not_panic e && not_panic d else true)
+      if repr then is_ok_eq d x else not_panic e && not_panic d
   | CLibDec y dy => not_panic dy
   | CDirect ok => ok
   end.
